@@ -117,6 +117,7 @@ let run_case (toks : string list) : string option =
               | Fault f -> outs := ("fault:" ^ fault_name f) :: !outs)
            | _ -> outs := "?" :: !outs)
         | 'T' -> outs := "t" :: !outs
+        | 'B' -> outs := "b" :: !outs
         | 'Q' ->
           (match String.index_opt op ':' with
            | Some i ->
